@@ -229,6 +229,47 @@ class Program:
                 self.adt[a["d"]] = a
         self.impls = [i for u in units for i in u.impls]
         self.consts = {c["d"]: c for u in units for c in u.consts}
+        self.repinned = {}
+        if not os.environ.get("DASHU_NO_PATH_PINNING"):
+            self._pin_paths()
+
+    def _pin_paths(self):
+        """keep the reviewed spelling of functions whose impl block moved to another module (see canon())"""
+        ref = _ref_paths()
+        if not ref:
+            return
+        have = set()
+        for u in self.units.values():
+            for f in u.fns:
+                have.add(f["p"])
+        ren = {}
+        for u in self.units.values():
+            if not u.crate.startswith("dashu"):
+                continue
+            for f in u.fns:
+                p = f["p"]
+                r = ref.get(canon(p))
+                if r and r != p and r not in have:
+                    ren[p] = r
+        if not ren:
+            return
+        self.repinned = ren
+        for u in self.units.values():
+            for f in u.fns:
+                if f["p"] in ren:
+                    f["p_current"] = f["p"]
+                    f["p"] = ren[f["p"]]
+                b = f.get("mir")
+                for body in ([b] + list(b.get("promoted", []) or [])) if b else []:
+                    for bb in body.get("bbs", []):
+                        t = bb.get("t", {})
+                        fop = t.get("f") if isinstance(t, dict) else None
+                        c = fop.get("c") if isinstance(fop, dict) else None
+                        fr = c.get("fn") if isinstance(c, dict) else None
+                        if isinstance(fr, dict):
+                            for k in ("p", "rp"):
+                                if fr.get(k) in ren:
+                                    fr[k] = ren[fr[k]]
 
     @property
     def name(self):
@@ -242,6 +283,21 @@ class Program:
             u = self.units.get(crate)
             if u:
                 yield from u.fns
+
+
+_REF_PATHS = None
+
+
+def _ref_paths():
+    global _REF_PATHS
+    if _REF_PATHS is None:
+        p = os.path.join(VERIF, "tables", "paths.json")
+        try:
+            with open(p) as fh:
+                _REF_PATHS = json.load(fh)
+        except OSError:
+            _REF_PATHS = {}
+    return _REF_PATHS
 
 
 _LOADED = {}
@@ -289,3 +345,53 @@ if __name__ == "__main__":
     for c in cfgs:
         for p in load(c):
             print(p.name, {k: (len(u.fns), u.features) for k, u in p.units.items()})
+
+
+# ---------------------------------------------------------------------------------------------
+# Location-independent function identity.  rustc prints `crate::module::<impl Trait for T>::m` when an impl
+# lives outside the module of T and `<T as Trait>::m` / `crate::module_of_T::T::m` when it lives inside, so a
+# method that is merely *moved* between files changes its printed path.  Reviewed tables are keyed by the
+# printed path; lookups fall back to this canonical identity (self type, trait, method), so that moving an
+# impl does not look like "a reviewed function disappeared and an unreviewed one appeared".
+import re as _re
+
+_IMPL_TRAIT = _re.compile(r"^(?P<mod>.*?)::<impl (?P<tr>.+?) for (?P<ty>.+)>::(?P<m>[^:<>]+)$")
+_IMPL_INH = _re.compile(r"^(?P<mod>.*?)::<impl (?P<ty>.+)>::(?P<m>[^:<>]+)$")
+_AS_TRAIT = _re.compile(r"^<(?P<ty>.+) as (?P<tr>.+?)>::(?P<m>[^:<>]+)$")
+
+
+def canon(p):
+    """canonical identity `type|trait|method` (closure suffixes kept); free functions: `crate|fn|name`"""
+    suffix = ""
+    m = _re.search(r"(::\{closure#\d+\})+$", p)
+    if m:
+        suffix = m.group(0)
+        p = p[:m.start()]
+    for rx in (_IMPL_TRAIT, _AS_TRAIT):
+        mm = rx.match(p)
+        if mm:
+            return "%s|%s|%s%s" % (mm.group("ty").replace("::<", "<"), mm.group("tr"), mm.group("m"), suffix)
+    mm = _IMPL_INH.match(p)
+    if mm:
+        return "%s||%s%s" % (mm.group("ty").replace("::<", "<"), mm.group("m"), suffix)
+    parts = p.split("::")
+    # `crate::module::Type::<G>::method` / `crate::module::Type::method`
+    if len(parts) >= 3:
+        meth = parts[-1]
+        owner = "::".join(parts[:-1])
+        owner2 = _re.sub(r"::<", "<", owner)
+        last = _re.sub(r"<.*$", "", owner2.rsplit("::", 1)[-1])
+        if last[:1].isupper():
+            return "%s||%s%s" % (owner2, meth, suffix)
+    return "%s|fn|%s%s" % (parts[0], parts[-1], suffix)
+
+
+def in_table(path, table):
+    """membership of a function path in a reviewed table (dict / set of printed paths), tolerant of moves"""
+    if path in table:
+        return path
+    c = canon(path)
+    for k in table:
+        if canon(k) == c:
+            return k
+    return None
